@@ -689,7 +689,7 @@ Proof.
 Qed.
 
 (* ---------------------------------------------------------------- refutation witnesses (the code really does this) *)
-Definition o0 : oracle := mkOracle [] [] [] [].
+Definition o0 : oracle := mkOracle [] [] [] [] [].
 Definition cfg_tiny : cfg := mkCfg 2 4 2 4 10 false.
 Definition mk (h from nonce price : Z) : tx := mkTx h from nonce price 21000 100 21000 110 true.
 
@@ -2413,9 +2413,9 @@ Qed.
 Lemma demote_unexecutables_M : forall o p p', caps_sound p -> demote_unexecutables o p = Ok p' -> M p'.
 Proof.
   intros o p p' HC H. unfold demote_unexecutables in H.
-  destruct (demote_fold_aff o (order_keys (operm1 o) (map fst (pending p))) p p' [] HC) as (C' & F' & O' & A'); [intros a l []|exact H|].
+  destruct (demote_fold_aff o (order_keys (operm4 o) (map fst (pending p))) p p' [] HC) as (C' & F' & O' & A'); [intros a l []|exact H|].
   split; auto. intros a l Hl.
-  destruct (in_dec Z.eq_dec a (order_keys (operm1 o) (map fst (pending p)))) as [Hin|Hnin]; [eapply A'; eauto|].
+  destruct (in_dec Z.eq_dec a (order_keys (operm4 o) (map fst (pending p)))) as [Hin|Hnin]; [eapply A'; eauto|].
   exfalso. apply Hnin. rewrite O' in Hl by auto. apply order_keys_in. eapply assoc_in_keys; eauto.
 Qed.
 
